@@ -80,7 +80,7 @@ func checkCoverage() {
 		"settrace/set-shared", "settrace/set-single", "settrace/mix-shared", "settrace/mix-single",
 		"history/redirect-followed", "history/token-redirect", "history/host-alias", "history/realm-on-registry-host",
 		"history/preset-authorization", "history/token-revoked", "history/challenge-outside-model-parser",
-		"history/failure-injected", "history/mode-change", "mixjob/shared", "mixjob/single", "once-slot/free", "once-slot/closed", "challenge/bearer", "allscopes",
+		"history/failure-injected", "history/mode-change", "mixjob/shared", "mixjob/single", "redirect-policy-case", "once-slot/free", "once-slot/closed", "challenge/bearer", "allscopes",
 	}
 	prefixes := []string{"history/shared/mode=2/sends=3/", "history/single/mode=2/sends=3/", "history/none/mode=2/sends=2/fetch=1/",
 		"history/shared/mode=1/sends=1/fetch=0/=ok", "once/n=", "scopes/len=", "actions/len=", "mix/", "set/fetches-saved="}
